@@ -303,8 +303,8 @@ Print Assumptions gen_grow_len_pow2_tie.
 
 (* 15. The Go functions themselves, as srcgen translates them on every run
        (Gen.C16: primaryIndex, getSegmentIndex, backwardShiftDelete, EvictKeysAt, Del
-       as whole functions with the receiver handed back, the probe loop of Get),
-       compute what the model's hidx / go_sidx / bshift / tevict / tdel / scan compute,
+       as whole functions with the receiver handed back, the probe loops of Put and Get),
+       compute what the model's hidx / go_sidx / bshift / tevict / tdel / put_core / scan compute,
        on every table with a power-of-two slot array (gotab p t : the Go struct for the
        model table t; fuel > len (+ n for EvictKeysAt); "t_bad … = false": the model
        stayed inside its faithful envelope, which wf_preserved guarantees for every
@@ -324,6 +324,15 @@ Theorem translated_code_is_model : forall p, p <= 62 ->
   (forall fuel t k, length (t_data t) = 2 ^ p -> 2 ^ p < fuel ->
      t_bad (fst (tdel go_mix t k)) = false ->
      go_UInt64Map_Del fuel (gotab p t) k = Some (snd (tdel go_mix t k), gotab p (fst (tdel go_mix t k)))) /\
+  (forall fuel t k v idx, length (t_data t) = 2 ^ p -> idx < 2 ^ p -> k <> 0%N -> 2 ^ p <= fuel ->
+     let r := go_UInt64Map_Put_loop1_run fuel (gotab p t) k v (Z.of_nat idx) in
+     let m' := fst (fst (fst (fst (snd r)))) in
+     match scan (stop_key k) (2 ^ p - 1) (t_data t) (2 ^ p) (nxt (2 ^ p) idx) with
+     | Some x => fst r = GoRet tt /\
+                 m' = gotab p (with_data t (upd x (k, v) (t_data t))
+                                         (if N.eqb (skey (t_data t) x) k then t_size t else (t_size t + 1)%Z))
+     | None => fst r = GoNext /\ m' = gotab p t
+     end) /\
   (forall fuel d k idx sz ga hz zv, length d = 2 ^ p -> idx < 2 ^ p -> k <> 0%N -> 2 ^ p <= fuel ->
      let r := go_UInt64Map_Get_loop1_run fuel (gomap d sz ga hz zv) k (Z.of_nat idx) in
      match scan (stop_key k) (2 ^ p - 1) d (2 ^ p) (nxt (2 ^ p) idx) with
@@ -337,6 +346,8 @@ Proof.
   - intros. apply gen_bsd; auto.
   - intros. apply gen_evict; auto.
   - intros. apply gen_del; auto.
+  - intros fuel t k v idx Hl Hi Hk Hf. unfold go_UInt64Map_Put_loop1_run.
+    apply (gen_put_loop p Hp fuel fuel t k v idx 1 Hl Hi Hk). lia.
   - intros. apply gen_get_run; auto.
 Qed.
 Print Assumptions translated_code_is_model.
